@@ -149,18 +149,18 @@ func rang(left, right string) (string, error) {
 		if inclusive {
 			return fmt.Sprintf("%s >= %s AND %s <= %s",
 					left,
-					formatFloat(fMin),
+					formatBound(rawMin, fMin),
 					left,
-					formatFloat(fMax),
+					formatBound(rawMax, fMax),
 				),
 				nil
 		}
 
 		return fmt.Sprintf("%s > %s AND %s < %s",
 				left,
-				formatFloat(fMin),
+				formatBound(rawMin, fMin),
 				left,
-				formatFloat(fMax),
+				formatBound(rawMax, fMax),
 			),
 			nil
 	}
@@ -365,6 +365,15 @@ func formatFloat(f float64) string {
 		return s + "0"
 	}
 	return s
+}
+
+// formatBound renders one bound of a range that also has a float bound. An integer bound that
+// a float64 cannot hold exactly is kept as it was written instead of being rounded.
+func formatBound(raw string, f float64) string {
+	if i, err := strconv.Atoi(raw); err == nil && strconv.FormatFloat(float64(i), 'f', -1, 64) != raw {
+		return raw
+	}
+	return formatFloat(f)
 }
 
 // splitBounds splits the serialized bounds of a range on the commas that are not inside a
